@@ -81,6 +81,14 @@ fn rand_act(rng: &mut ChaCha8Rng, pre: &J) -> J {
             json!({"name": "BurnFrom", "spender": s, "from": f, "amt": rand_amt(rng, alw(f, s)), "auth": auth_for(rng, s)})
         }
         88..=91 => json!({"name": "TransferOwnership", "new": pick(rng, &["its0", "carol", "dave"]), "auth": auth_for(rng, &owner)}),
+        92..=93 => {
+            let f = pick(rng, &users);
+            match rng.gen_range(0..4) {
+                0 => json!({"name": "SetAuthorized", "id": f, "flag": rng.gen_bool(0.5), "auth": auth_for(rng, &owner)}),
+                1 => json!({"name": "Authorized", "id": f, "auth": []}),
+                _ => json!({"name": "Clawback", "from": f, "amt": rand_amt(rng, bal(f)), "auth": auth_for(rng, &owner)}),
+            }
+        }
         _ => json!({"name": "AdvanceLedger", "d": rng.gen_range(0..=2)}),
     }
 }
